@@ -495,6 +495,7 @@ func init() {
 			d.W.RemoveEntities(typed.NewFilter0(d.W, false).Batch(nil), nil)
 		},
 		"World.Reset":      func(d *Drv, op *Op, h, _ ecs.Entity) { d.W.Reset() },
+		"TypeID(new type)": func(d *Drv, op *Op, h, _ ecs.Entity) { ecs.TypeID(d.W, u.Filler(2000+op.N%7)) },
 		"World.Shrink":     func(d *Drv, op *Op, h, _ ecs.Entity) { d.W.Shrink() },
 		"World.Shrink(0)":  func(d *Drv, op *Op, h, _ ecs.Entity) { d.W.Shrink(0) },
 		"Unsafe.NewEntity": func(d *Drv, op *Op, h, _ ecs.Entity) { d.U.NewEntity(d.ID[u.IP8]) },
